@@ -80,9 +80,9 @@ theorem pdSections_ex (d : Dir) (junk : FileInfo → Nat) : ∀ (dir : List Comp
     simp only [exSections] at hr
     simp [smSections, pdSections, stSections, pdSection_ex d junk dir idx s hr.append_left,
       pdSections_ex d junk dir (idx + exCntSection s) t hr.append_right]
-theorem pdFile_ex (d : Dir) (junk : FileInfo → Nat) : ∀ (dir : List Comp) (idx : Nat) (f : File),
-    Readable d (exFile dir idx f) → pdFile d junk (smFile dir idx f) = .ok (stFile junk f)
-  | dir, idx, .mk i buf secs, hr => by
+theorem pdFile_ex (d : Dir) (junk : FileInfo → Nat) : ∀ (pol : Nat) (dir : List Comp) (idx : Nat) (f : File),
+    Readable d (exFile pol dir idx f) → pdFile d junk (smFile dir idx f) = .ok (stFile junk f)
+  | pol, dir, idx, .mk i buf secs, hr => by
     cases hnv : i.nvar with
     | some nv => simp [smFile, hnv, pdFile, readBuf, sumFileInfo, stFile]
     | none =>
@@ -95,13 +95,13 @@ theorem pdFile_ex (d : Dir) (junk : FileInfo → Nat) : ∀ (dir : List Comp) (i
         simp only [exFile, hnv] at hr
         have ih := pdSections_ex d junk (fileDir dir i idx) (idx + 1) (a :: t) hr
         simp [smFile, hnv, pdFile, readBuf, sumFileInfo, ih, stFile]
-theorem pdFiles_ex (d : Dir) (junk : FileInfo → Nat) : ∀ (dir : List Comp) (idx : Nat) (n : List File),
-    Readable d (exFiles dir idx n) → pdFiles d junk (smFiles dir idx n) = .ok (stFiles junk n)
-  | _, _, [], _ => by simp [smFiles, pdFiles, stFiles]
-  | dir, idx, f :: t, hr => by
+theorem pdFiles_ex (d : Dir) (junk : FileInfo → Nat) : ∀ (pol : Nat) (dir : List Comp) (idx : Nat) (n : List File),
+    Readable d (exFiles pol dir idx n) → pdFiles d junk (smFiles dir idx n) = .ok (stFiles junk n)
+  | _, _, _, [], _ => by simp [smFiles, pdFiles, stFiles]
+  | pol, dir, idx, f :: t, hr => by
     simp only [exFiles] at hr
-    simp [smFiles, pdFiles, stFiles, pdFile_ex d junk dir idx f hr.append_left,
-      pdFiles_ex d junk dir (idx + exCntFile f) t hr.append_right]
+    simp [smFiles, pdFiles, stFiles, pdFile_ex d junk pol dir idx f hr.append_left,
+      pdFiles_ex d junk pol dir (idx + exCntFile f) t hr.append_right]
 theorem pdFv_ex (d : Dir) (junk : FileInfo → Nat) : ∀ (dir : List Comp) (idx : Nat) (v : Fv),
     Readable d (exFv dir idx v) → pdFv d junk (smFv dir idx v) = .ok (stFv junk v)
   | dir, idx, .mk i buf [], hr => by
@@ -110,7 +110,7 @@ theorem pdFv_ex (d : Dir) (junk : FileInfo → Nat) : ∀ (dir : List Comp) (idx
   | dir, idx, .mk i buf (a :: t), hr => by
     simp only [exFv] at hr
     have := readBuf_leaf d (fvLeaf dir i true) (buf.take i.dataOffset) (by simp [fvLeaf, fvDir]) hr.head
-    have ih := pdFiles_ex d junk (fvDir dir i) idx (a :: t) hr.tail
+    have ih := pdFiles_ex d junk _ (fvDir dir i) idx (a :: t) hr.tail
     simp [smFv, pdFv, this, ih, stFv]
 end
 
